@@ -195,6 +195,9 @@ def main():
             for c in CLS_ORDER:
                 key = [k for k, v in CLS.items() if v == c][0]
                 A('  | %s => %s' % (c, cls_list(d.get(key, ()), pyname)))
+            A('')
+            A('/-- the classifications that are keys of `%s` (a lookup of any other one is a KeyError) -/' % doc)
+            A('def Gen.%sKeys : List Cls := [%s]' % (leanname, ', '.join(CLS[k] for k in CLS if k in d)))
         A('')
         return d
 
